@@ -15,6 +15,7 @@ type modTarget struct {
 	ref   string              // specific index (object ref / slice base) or "" when described by allow only
 	allow func(r string) string // which indices may change
 	whole bool                // globals: the whole (scalar) array
+	lo, hi string             // element arrays: absolute index range [lo,hi) of the row that may change ("" = whole row)
 }
 
 // modifies targets of contract c evaluated in env (pre-state of the call / function entry)
@@ -94,7 +95,20 @@ func (e *FnEnc) modTargetsOf(x Expr, env *specEnv, src string) []modTarget {
 		s := env.eval(n.X)
 		switch t := typeUnder(s.T).(type) {
 		case *types.Slice:
-			return e.elemTargets(s.L[0], t.Elem())
+			ts := e.elemTargets(s.L[0], t.Elem())
+			if (n.Lo != nil || n.Hi != nil) && !isAggregateElem(t.Elem()) {
+				lo, hi := s.L[1], e.idxAdd(s.L[1], s.L[2])
+				if n.Lo != nil {
+					lo = e.idxAdd(s.L[1], env.asIdx(env.eval(n.Lo)))
+				}
+				if n.Hi != nil {
+					hi = e.idxAdd(s.L[1], env.asIdx(env.eval(n.Hi)))
+				}
+				for i := range ts {
+					ts[i].lo, ts[i].hi = lo, hi
+				}
+			}
+			return ts
 		case *types.Map:
 			var ts []modTarget
 			dn, ds := e.mapDom(t)
@@ -112,12 +126,8 @@ func (e *FnEnc) modTargetsOf(x Expr, env *specEnv, src string) []modTarget {
 		}
 		sfail("modifies %s: not a slice/map", src)
 	case *ESel:
-		p := env.eval(n.X)
-		pt, ok := typeUnder(p.T).(*types.Pointer)
-		if !ok {
-			sfail("modifies %s: base is not a pointer", src)
-		}
-		st, ok := pt.Elem().Underlying().(*types.Struct)
+		ref, structT := e.structLoc(n.X, env, src)
+		st, ok := structT.Underlying().(*types.Struct)
 		if !ok {
 			sfail("modifies %s: not a struct", src)
 		}
@@ -126,14 +136,13 @@ func (e *FnEnc) modTargetsOf(x Expr, env *specEnv, src string) []modTarget {
 			sfail("modifies %s: no direct field", src)
 		}
 		f := st.Field(idx)
-		ref := p.L[0]
 		if isAggregateElem(f.Type()) {
 			return e.objTargets(e.emb(ref, idx+1), f.Type())
 		}
 		var ts []modTarget
 		for _, l := range e.sorter.leaves(f.Type()) {
 			r := ref
-			ts = append(ts, modTarget{name: objArrName(typeName(pt.Elem()), "."+f.Name()+l.suffix), sort: e.arrSort1(l.sort), ref: ref,
+			ts = append(ts, modTarget{name: objArrName(typeName(structT), "."+f.Name()+l.suffix), sort: e.arrSort1(l.sort), ref: ref,
 				allow: func(x string) string { return seq(x, r) }})
 		}
 		return ts
@@ -158,7 +167,7 @@ func (e *FnEnc) modTargetsOf(x Expr, env *specEnv, src string) []modTarget {
 }
 
 // for frame obligations: per array, the disjunction of allowed indices
-func (e *FnEnc) modifiesSets(c *FuncContract, entry, exit *specEnv) map[string]func(string) string {
+func (e *FnEnc) modifiesSets(c *FuncContract, entry, exit *specEnv) map[string]func(string, string) string {
 	var ts []modTarget
 	var all bool
 	func() {
@@ -175,19 +184,23 @@ func (e *FnEnc) modifiesSets(c *FuncContract, entry, exit *specEnv) map[string]f
 	if all {
 		return nil
 	}
-	out := map[string]func(string) string{}
+	out := map[string]func(string, string) string{}
 	for _, t := range ts {
 		t := t
 		prev := out[t.name]
 		if t.whole {
-			out[t.name] = func(string) string { return "true" }
+			out[t.name] = func(string, string) string { return "true" }
 			continue
 		}
-		out[t.name] = func(r string) string {
-			if prev != nil {
-				return sor(prev(r), t.allow(r))
+		out[t.name] = func(r, k string) string {
+			a := t.allow(r)
+			if t.lo != "" && k != "" {
+				a = sand(a, e.idxLe(t.lo, k), e.idxLt(k, t.hi))
 			}
-			return t.allow(r)
+			if prev != nil {
+				return sor(prev(r, k), a)
+			}
+			return a
 		}
 	}
 	return out
@@ -202,6 +215,10 @@ func (e *FnEnc) havocTargets(ts []modTarget) {
 		case t.ref != "" && t.ref != "?":
 			inner := t.sort[len("(Array Int ") : len(t.sort)-1]
 			fv := e.decl(e.fresh("hv"), inner)
+			if t.lo != "" {
+				e.assume(fmt.Sprintf("(forall ((k %s)) (! (=> (not (and %s %s)) (= (select %s k) (select (select %s %s) k))) :pattern ((select %s k))))",
+					e.sorter.idxSort(), e.idxLe(t.lo, "k"), e.idxLt("k", t.hi), fv, cur, t.ref, fv))
+			}
 			e.setHeap(t.name, t.sort, "(store "+cur+" "+t.ref+" "+fv+")")
 		default:
 			e.havocHeap(t.name)
@@ -329,7 +346,11 @@ func (e *FnEnc) encCall(cc *ssa.CallCommon, instr *ssa.Call, pos token.Pos) *Val
 		return e.opaqueCall(cc, args, resT, calleeName, isRepo, pos)
 	}
 	c.used = true
-	return e.applyContract(c, calleeName, calleePkg, names, args, argTs, cc, resT, pos)
+	var recvT types.Type
+	if cc.IsInvoke() {
+		recvT = cc.Value.Type()
+	}
+	return e.applyContract(c, calleeName, calleePkg, names, args, argTs, cc.Signature(), recvT, resT, pos)
 }
 
 func pkgBase(p string) string {
@@ -342,13 +363,12 @@ func pkgBase(p string) string {
 // calling a pointer-receiver method with nil receiver is legal in Go; nothing to check here
 func (e *FnEnc) recvNilCheck(fn *ssa.Function, args []Val, pos token.Pos) {}
 
-func (e *FnEnc) applyContract(c *FuncContract, calleeName string, calleePkg *types.Package, names []string, args []Val, argTs []types.Type, cc *ssa.CallCommon, resT types.Type, pos token.Pos) *Val {
+func (e *FnEnc) applyContract(c *FuncContract, calleeName string, calleePkg *types.Package, names []string, args []Val, argTs []types.Type, sig *types.Signature, invokeRecvT types.Type, resT types.Type, pos token.Pos) *Val {
 	pre := e.st.clone()
 	env := &specEnv{e: e, vars: map[string]Val{}, st: pre, old: pre, pkg: calleePkg}
-	sig := cc.Signature()
 	var ptypes []types.Type
-	if cc.IsInvoke() {
-		ptypes = append(ptypes, cc.Value.Type())
+	if invokeRecvT != nil {
+		ptypes = append(ptypes, invokeRecvT)
 	} else if sig.Recv() != nil {
 		ptypes = append(ptypes, sig.Recv().Type())
 	}
@@ -764,4 +784,51 @@ func (e *FnEnc) appendAggregate(s, tail Val, elT types.Type, res Val, inPlace, f
 			ix, inPlace, snot(sand(e.idxLe(e.idxAdd(s.L[1], s.L[2]), "k"), e.idxLt("k", e.idxAdd(s.L[1], res.L[2])))),
 			nw, e.eaddr(s.L[0], "k"), cur, e.eaddr(s.L[0], "k"), nw, e.eaddr(s.L[0], "k")))
 	}
+}
+
+// structLoc resolves an expression denoting a struct in memory to (object ref, struct type):
+// a pointer-valued expression, or a chain of by-value struct fields below one.
+func (e *FnEnc) structLoc(x Expr, env *specEnv, src string) (string, types.Type) {
+	if sel, ok := x.(*ESel); ok {
+		// try: x = Y.f with f a by-value struct field
+		func() {
+			defer func() { recover() }()
+		}()
+		if ref, t, ok := e.tryStructField(sel, env, src); ok {
+			return ref, t
+		}
+	}
+	p := env.eval(x)
+	pt, ok := typeUnder(p.T).(*types.Pointer)
+	if !ok {
+		sfail("modifies %s: %s is not a pointer or an embedded struct", src, x)
+	}
+	return p.L[0], pt.Elem()
+}
+
+func (e *FnEnc) tryStructField(sel *ESel, env *specEnv, src string) (ref string, t types.Type, ok bool) {
+	defer func() {
+		if r := recover(); r != nil {
+			if _, isSpec := r.(specErr); isSpec {
+				ok = false
+				return
+			}
+			panic(r)
+		}
+	}()
+	// only when the selected field is itself a struct by value
+	baseRef, baseT := e.structLoc(sel.X, env, src)
+	st, isStruct := baseT.Underlying().(*types.Struct)
+	if !isStruct {
+		return "", nil, false
+	}
+	idx, path := findField(st, sel.F)
+	if idx < 0 || len(path) != 1 {
+		return "", nil, false
+	}
+	f := st.Field(idx)
+	if _, isS := f.Type().Underlying().(*types.Struct); !isS {
+		return "", nil, false
+	}
+	return e.emb(baseRef, idx+1), f.Type(), true
 }
